@@ -407,13 +407,19 @@ Proof.
   - right; auto.
 Qed.
 
-Lemma excused_no_exceptions : forall pol a b, excused pol [] a b = true ->
+Lemma excused_cases : forall pol exc a b, excused pol exc a b = true ->
+  in_keys exc (site_key a) = true \/
   exists n ps, In (site_key a, HBVia n ps) pol /\ pair_listed ps (s_func a) (s_func b) = true.
 Proof.
-  intros pol a b H. unfold excused in H. cbn in H.
-  destruct (lookup pol (site_key a)) as [p|] eqn:L; [|discriminate].
+  intros pol exc a b H. unfold excused in H. apply orb_prop in H. destruct H as [H|H]; auto.
+  right. destruct (lookup pol (site_key a)) as [p|] eqn:L; [|discriminate].
   destruct p; try discriminate. eauto using lookup_in.
 Qed.
+
+(* mutual exclusion holds in every reachable state (the lock semantics are respected) *)
+Theorem reachable_lock_inv : forall init sched st,
+  initial init -> run init sched = Some st -> lock_inv st.
+Proof. intros. eapply run_lock_inv; eauto using initial_lock_inv. Qed.
 
 (* ------------------------------------------------------------------ a static sufficient condition *)
 
